@@ -193,7 +193,10 @@ pub fn run(tier: Tier) -> i32 {
         // every en-passant position with one enemy slider anywhere (pins of the capturer along rank,
         // file and diagonals, discovered checks through the push), judged without children
         plan.families.push((Box::new(crate::universe::EpFamily { extra: crate::universe::Extra::EnemySlider, pre_push: false }), 0));
+        // ... and with a capturer on both sides of the pushed pawn (one of them pinned, the other not)
+        plan.families.push((Box::new(crate::universe::EpTwoFamily { extra: crate::universe::Extra::EnemySlider, pre_push: false }), 0));
     }
+    let plan = with_line_geometry_for(plan, true, 0, true);
     run_plan(&run, &oracle, &plan);
     // complete 64x64x5 legality sweep: every root, the children of every 4th root (thorough: everything
     // within 2 plies of every root), plus every 64th (quick: 2048th) member of the en-passant / castling / promotion families
